@@ -1567,9 +1567,10 @@ class Compiler:
 
         filter_args = list(map(self._engine.cache.get, node.filters))
 
+        # Attribute names are matched irrespective of case.
         filter_condition = template(
-            "NAME not in CHAIN",
-            NAME=ast.Constant(node.name),
+            "NAME not in map(str.lower, CHAIN)",
+            NAME=ast.Constant(node.name.lower()),
             CHAIN=ast.Call(
                 func=load("__chain"),
                 args=filter_args,
@@ -1623,7 +1624,7 @@ class Compiler:
 
         exclude = Static(template(
             "set(LIST)", LIST=ast.List(
-                elts=[ast.Constant(name) for name in node.exclude],
+                elts=[ast.Constant(name.lower()) for name in node.exclude],
                 ctx=ast.Load(),
             ), mode="eval"
         ))
@@ -1638,7 +1639,7 @@ class Compiler:
             "for name, value in TARGET.items():\n" +
             indent(bool_cond) +
             indent(
-                "if name not in EXCLUDE and value is not None:\n" +
+                "if name.lower() not in EXCLUDE and value is not None:\n" +
                 indent(bool_cond) +
                 indent(
                     "__append("
